@@ -1,5 +1,7 @@
 (* C19 -- Messages are stored before sending; handlers run in order; a refusal stops it. *)
-From SF Require Import Bytes Values Wire Parse Session Session_proofs Session_clean Session_handlers.
+From Coq Require Import List ZArith.
+From SF Require Import Bytes Values Wire Parse Session Session_proofs Session_clean Session_handlers
+  Session_c05 Session_hist Session_c10.
 
 (* Session.send when nothing refuses: the calls (the Save under the message's own number among
    them, all before the hand-off), then exactly one wire carrying the stamped message; the store
@@ -53,3 +55,37 @@ Theorem C19_registration_order :
   forall (p : pool in_handler) k h, pool_get (pool_add p k h) k = pool_get p k ++ [h].
 Proof. intros. apply pool_registration_order. Qed.
 Print Assumptions C19_registration_order.
+
+(* ---- over whole histories ----
+   store-before-send at every point of every history: after construction, Run and any sequence of
+   operations (inbound messages of any content, application sends, pass-through registrations,
+   timer expiries, Logout, Stop), every message that has been transmitted is in the store under its
+   own number, byte for byte.  The theorem is about every history, hence about every prefix of one:
+   there is no moment at which something is on the wire and not in the store. *)
+Theorem C19_history_sent_is_stored :
+  forall cfg ci c store pre ops sp op s0 o0 s' os,
+    c_fail_saves cfg = [] ->
+    (forall k m, store_get store k = Some m -> seq_of m = k /\ (k <= c)%Z) ->
+    Forall op_clean pre -> run_ops cfg (init_state cfg ci c store) pre = (sp, op) ->
+    run_session cfg sp = (s0, o0) ->
+    Forall op_clean ops ->
+    run_ops cfg s0 ops = (s', os) ->
+    let sent := wires (concat op ++ o0 ++ concat os) in
+    (forall w, In w sent -> exists m, store_get (s_store s') (seq_of w) = Some m /\ fst (prepare m) = w)
+    /\ (forall w1 w2, In w1 sent -> In w2 sent -> seq_of w1 = seq_of w2 -> w1 = w2).
+Proof. exact history_sent_is_stored. Qed.
+Print Assumptions C19_history_sent_is_stored.
+
+(* the premises of C19_store_before_send (clean, save_first) hold in every such state as long as
+   the router is running: the per-step theorem applies at every reachable point *)
+Theorem C19_premises_reachable :
+  forall cfg ci c store pre ops sp op s0 o0 s' os,
+    c_fail_saves cfg = [] ->
+    (forall k m, store_get store k = Some m -> seq_of m = k /\ (k <= c)%Z) ->
+    Forall op_clean pre -> run_ops cfg (init_state cfg ci c store) pre = (sp, op) ->
+    run_session cfg sp = (s0, o0) ->
+    Forall op_clean ops ->
+    run_ops cfg s0 ops = (s', os) ->
+    s_router_stopped s' = false -> clean cfg s' /\ save_first s'.
+Proof. exact reachable_clean. Qed.
+Print Assumptions C19_premises_reachable.
